@@ -105,6 +105,7 @@ type pageScript struct {
 
 	// how the caller asks
 	prepared    bool
+	bindFn      bool
 	noSkip      bool
 	consumer    int
 	pageSizeSet bool
@@ -213,6 +214,7 @@ type pageStateRef struct {
 type pageRun struct {
 	k       *kernel.Kernel
 	cl      *node.Cluster
+	stmtIDs map[string][]byte // statement text -> prepared id
 	e       *Env
 	faults  bool
 	timeout time.Duration
@@ -291,6 +293,8 @@ func (pr *pageRun) drawScript(tp *kernel.Tape, ti, oi, qid, proto, sessPageSize 
 	s.global = !tp.Chance(1, 3)
 	if s.prepared = tp.Chance(1, 2); s.prepared {
 		s.stmt = pagePrepStmt + strconv.Itoa(ti)
+		// the values come from a binding callback (Session.Bind) instead of the call
+		s.bindFn = tp.Chance(1, 3)
 	}
 	s.noSkip = tp.Chance(1, 3)
 	s.consumer = tp.Weighted([]int{3, 2, 2, 1})
@@ -523,11 +527,14 @@ func (pr *pageRun) app(sc *node.SConn, rec *node.ReqRec) {
 	rq := rec.Req
 	switch rq.Header.Opcode {
 	case cqlspec.OpPrepare:
-		id := []byte(fmt.Sprintf("P%d", len(sc.Host.Prepared)+1))
-		for _, p := range sc.Host.Prepared {
-			if p.Query == rq.Query {
-				id = p.ID
-			}
+		// (the id of a statement is a function of its text: the same after an eviction)
+		if pr.stmtIDs == nil {
+			pr.stmtIDs = map[string][]byte{}
+		}
+		id := pr.stmtIDs[rq.Query]
+		if id == nil {
+			id = []byte(fmt.Sprintf("P%d", len(pr.stmtIDs)+1))
+			pr.stmtIDs[rq.Query] = id
 		}
 		sc.Host.Prepared[string(id)] = &node.PreparedStmt{ID: id, Query: rq.Query, NBind: 1}
 		pm := &cqlspec.PreparedMeta{GlobalSpec: true, Columns: []cqlspec.ColSpec{{Keyspace: "ks", Table: "t", Name: "k", Type: cqlspec.ColType{ID: cqlspec.TVarchar}}}}
@@ -948,7 +955,10 @@ func (pr *pageRun) setInCall(s *pageScript, v bool) {
 
 func (pr *pageRun) buildQuery(sess *gocql.Session, s *pageScript) *gocql.Query {
 	var q *gocql.Query
-	if s.prepared {
+	if s.prepared && s.bindFn {
+		token := s.token
+		q = sess.Bind(s.stmt, func(*gocql.QueryInfo) ([]interface{}, error) { return []interface{}{token}, nil })
+	} else if s.prepared {
 		q = sess.Query(s.stmt, s.token)
 	} else {
 		q = sess.Query(s.stmt)
@@ -1593,6 +1603,26 @@ func runPage(e *Env) {
 		}
 		return acts
 	})
+	if pr.faults {
+		// a node forgets the statements it prepared (its cache evicts them): the next EXECUTE
+		// is answered UNPREPARED, the driver prepares again and sends the same request again
+		evictions := 0
+		k.Sources = append(k.Sources, func() []kernel.Action {
+			var acts []kernel.Action
+			for _, h := range cl.Hosts {
+				if len(h.Prepared) == 0 || evictions >= 2 {
+					continue
+				}
+				h := h
+				acts = append(acts, kernel.Action{Key: "evict:" + h.Addr, Rank: 6, Weight: 1, Do: func() {
+					evictions++
+					k.Fault("page.node-forgets-prepared-statements")
+					h.Prepared = map[string]*node.PreparedStmt{}
+				}})
+			}
+			return acts
+		})
+	}
 	if closeRun {
 		k.Sources = append(k.Sources, func() []kernel.Action {
 			var acts []kernel.Action
